@@ -83,10 +83,15 @@ def fault_for(i, k):
     return FAULT_CLASSES[(i * 7 + (k or 0)) % len(FAULT_CLASSES)]
 
 
-async def _situation(loop, sit, backend, k, repeat_name=None, pipelined=False, fault_class=0, parked=False):
+async def _situation(loop, sit, backend, k, repeat_name=None, pipelined=False, fault_class=0, parked=False, slow=None):
+    """`slow`: (backend "vasync" only) the slow-th job handed to the executor after the preparation takes longer than
+    `path_timeout` - a disk that hangs instead of failing"""
     name, prep, cmd, shape, needs_data = sit
     spy = spyio.Spy()
-    wd = W.World(loop, S.USERS_ANON, backend=backend, spy=spy, server_kwargs={"block_size": BLOCK})
+    kw = {"block_size": BLOCK}
+    if backend == "vasync":
+        kw["path_timeout"] = 0.25
+    wd = W.World(loop, S.USERS_ANON, backend=backend, spy=spy, server_kwargs=kw)
     await wd.start()
     res = {}
     try:
@@ -107,6 +112,9 @@ async def _situation(loop, sit, backend, k, repeat_name=None, pipelined=False, f
             await W.data_connect(wd, a)
         n0 = spy.n
         spy.name_count = {}
+        e0 = wd.vexec.n if wd.vexec is not None else 0
+        if slow is not None and wd.vexec is not None:
+            wd.vexec.slow_at[e0 + slow] = 1.0
         if k is not None:
             spy.fail_at[n0 + k] = FAULT_CLASSES[fault_class][1]("injected fault at backend call %d of %s" % (k, cmd))
         if repeat_name is not None:
@@ -128,14 +136,19 @@ async def _situation(loop, sit, backend, k, repeat_name=None, pipelined=False, f
             pipelined_codes = [int(c) for c, _ in a.replies[m0:]]
             codes, crashed, out, listing = pipelined_codes[:1], False, b"", None
         else:
+            r0 = len(a.replies)
             codes, crashed, out, listing = await W.run_line(wd, a, cmd.encode(), b"" if empty else PAYLOAD)
-        if 150 in codes and not any(c >= 200 for c in codes):
-            # the peer is still waiting for the completion reply: give it (virtual) time
-            await asyncio.sleep(3)
-            await loop.settle()
+            if 150 in codes and not any(c >= 200 for c in codes):
+                # the peer is still waiting for the completion reply: give it (virtual) time
+                await asyncio.sleep(3)
+                await loop.settle()
+                codes = [int(c) for c, _ in a.replies[r0:] if c.isdigit()]
         res["codes"] = codes
         res["pipelined_codes"] = pipelined_codes
         res["calls"] = [nm for kk, nm, _ in spy.log if kk >= n0]
+        res["executor_jobs"] = list(wd.vexec.log[e0:]) if wd.vexec is not None else []
+        if wd.vexec is not None:
+            wd.vexec.slow_at.clear()
         res["crashed"] = crashed
         res["data_closed"] = None
         if data_t is not None:
@@ -179,8 +192,9 @@ def _job(args):
     pipelined = len(args) > 4 and args[4]
     fc = args[5] if len(args) > 5 else 0
     parked = len(args) > 6 and args[6]
+    slow = args[7] if len(args) > 7 else None
     try:
-        return simnet.run(_situation, SITUATIONS[idx], backend, k, rep, pipelined, fc, parked)
+        return simnet.run(_situation, SITUATIONS[idx], backend, k, rep, pipelined, fc, parked, slow)
     except BaseException as e:  # noqa
         return "HARNESS-ERROR %s: %s" % (type(e).__name__, e)
 
@@ -245,6 +259,16 @@ def _run(ctx, compare=True):
             # the follow-up transfer uses a data connection that was parked while the command failed
             for k in range(len(r["calls"])):
                 jobs.append((i, be, k, None, False, 0, True))
+        # a disk that hangs instead of failing: AsyncPathIO on an executor whose slow-th job outlasts path_timeout
+        vbase = pool.map(_job, [(i, "vasync", None, None) for i in range(len(SITUATIONS))])
+        for i, r in enumerate(vbase):
+            if isinstance(r, str):
+                jobs.append((i, "vasync", None, None))  # reported below as a harness problem
+                continue
+            n_jobs = len(r["executor_jobs"])
+            firsts = {r["executor_jobs"].index(nm) for nm in set(r["executor_jobs"])}  # each kind of job once
+            for sl in (range(n_jobs) if ctx.thorough() else sorted((firsts | {n_jobs - 1}) & set(range(n_jobs)))):
+                jobs.append((i, "vasync", None, None, False, 0, False, sl))
         outs = pool.map(_job, jobs, chunksize=4)
     lines, expect = [], []
     # 1. fault-free call sequences vs the model's programs
@@ -288,6 +312,15 @@ def _run(ctx, compare=True):
                 })
             continue
         parked = len(job) > 6 and job[6]
+        slow = job[7] if len(job) > 7 else None
+        if slow is not None:
+            res.count("slow_disk")
+            f = oracle(sit, be, None, "slow executor job %d (%s)" % (slow, r["executor_jobs"][slow] if slow < len(r["executor_jobs"]) else "?"), r)
+            if f:
+                f["input"]["slow_executor_job"] = slow
+                f["input"]["all_calls_of_kind_fail"] = None
+                res.oracle_failures.append(f)
+            continue
         f = oracle(sit, be, k, rep, r)
         if f:
             f["input"]["fault_class"] = FAULT_CLASSES[fc][0]
@@ -336,7 +369,7 @@ def _one(inp):
     names = [s[0] for s in SITUATIONS]
     i = names.index(inp["situation"])
     fc = [n for n, _ in FAULT_CLASSES].index(inp.get("fault_class", "OSError"))
-    r = _job((i, inp["backend"], inp.get("fault_at_call"), inp.get("all_calls_of_kind_fail"), bool(inp.get("pipelined_with")), fc, bool(inp.get("parked_data_connection"))))
+    r = _job((i, inp["backend"], inp.get("fault_at_call"), inp.get("all_calls_of_kind_fail"), bool(inp.get("pipelined_with")), fc, bool(inp.get("parked_data_connection")), inp.get("slow_executor_job")))
     return SITUATIONS[i], r
 
 
